@@ -251,6 +251,8 @@ func (s *sim) ownGate(w int, kind string) {
 	<-gc.release
 }
 
+var errCallerGaveUp = errors.New("caller gave up (custom cancellation cause)")
+
 func (s *sim) worker(w int) {
 	st := s.ws[w]
 	s.mu.Lock()
@@ -260,7 +262,9 @@ func (s *sim) worker(w int) {
 	locker := s.lockers[s.cfg.Workers[w]]
 	prov := s.cfg.Lockers[s.cfg.Workers[w]]
 	for i, a := range s.cfg.Programs[w] {
-		ctx, cancel := context.WithCancel(context.Background())
+		// contexts are cancelled with a custom cause: what LockWithCtx has to return is still ctx.Err()
+		ctx, cancelCause := context.WithCancelCause(context.Background())
+		cancel := func() { cancelCause(errCallerGaveUp) }
 		s.mu.Lock()
 		st.phase, st.attempt, st.attemptIdx = "begin", a, i
 		st.cancel, st.cancelled, st.cancelEarly, st.faulted = cancel, false, false, false
